@@ -28,7 +28,7 @@ import (
 )
 
 var st = stat.New("C08",
-	"Case = {1..3 proxy objects to one scripted server - either for distinct servant names (separate connections) or all for the same name (as repeated StringToProxy calls: one shared adapter and connection), 1..48 calls issued by 1..48 worker goroutines (a worker issues its calls sequentially, workers run concurrently) each call with a unique payload token and a context deadline of 250 or 400 ms, the process-wide request id counter preset (random, near MaxInt32, near 0 from below), per caller a reply plan: 0..3 acts from {own reply, duplicate, reply with the id of another caller, id 0, unknown id, own id marked one-way} with delays 0..40 ms or late (after the deadline), or silence}. Oracle (history invariant over the server log): a caller returns either an error or a response whose serial was sent with id field == the id of its own request and packet type normal; request ids on the wire are never 0 and pairwise distinct within the batch; a caller for whom a correctly addressed reply was written on its connection at least 150 ms before its deadline must succeed. Non-trivial = >=4 calls in flight and >=1 duplicate or foreign-id reply and replies not in request order. Distinct = distinct case JSON.",
+	"Case = {1..3 proxy objects to one scripted server - either for distinct servant names (separate connections) or all for the same name (as repeated StringToProxy calls: one shared adapter and connection), 1..48 calls issued by 1..48 worker goroutines (a worker issues its calls sequentially, workers run concurrently) each call with a unique payload token and a context deadline of 250 or 400 ms, the process-wide request id counter preset (random, near MaxInt32, near 0 from below), in a third of the cases keep-alive pings (one-way tars_ping, ids from the same sequence) sent on the same connections every 2..25 ms while the calls run, per caller a reply plan: 0..3 acts from {own reply, duplicate, reply with the id of another caller, id 0, unknown id, own id marked one-way} with delays 0..40 ms or late (after the deadline), or silence}. Oracle (history invariant over the server log): a caller returns either an error or a response whose serial was sent with id field == the id of its own request and packet type normal; request ids on the wire are never 0 and pairwise distinct within the batch; a caller for whom a correctly addressed reply was written on its connection at least 150 ms before its deadline must succeed. Non-trivial = >=4 calls in flight and >=1 duplicate or foreign-id reply and replies not in request order. Distinct = distinct case JSON.",
 	"the scripted server's log is the ground truth; replies may legitimately carry foreign payloads, so payloads are never compared",
 	"schedules are sampled through generated delays, not enumerated; id uniqueness across a full 2^31 wrap is out of reach")
 
@@ -56,12 +56,19 @@ type Case struct {
 	NProxies   int      `json:"n_proxies"`
 	IDBase     int32    `json:"id_base"`
 	Callers    []Caller `json:"callers"`
+	// KeepAliveMs > 0: while the calls run, keep-alive pings (one-way tars_ping requests,
+	// which take their ids from the same sequence) are sent on the proxies' connections
+	// every that many milliseconds
+	KeepAliveMs int `json:"keepalive_ms,omitempty"`
 }
 
 func draw(rt *rapid.T) Case {
 	c := Case{NProxies: rapid.IntRange(1, 3).Draw(rt, "nproxies")}
 	c.SharedName = c.NProxies > 1 && rapid.Bool().Draw(rt, "sharedName")
 	c.IDBase = rapid.OneOf(rapid.Int32(), rapid.Int32Range(math.MaxInt32-60, math.MaxInt32), rapid.Int32Range(-60, 2), rapid.Int32Range(math.MinInt32, math.MinInt32+60)).Draw(rt, "idBase")
+	if rapid.IntRange(0, 2).Draw(rt, "keepalive") == 0 {
+		c.KeepAliveMs = rapid.SampledFrom([]int{2, 7, 25}).Draw(rt, "keepaliveMs")
+	}
 	n := rapid.OneOf(rapid.IntRange(1, 8), rapid.IntRange(4, 48)).Draw(rt, "ncallers")
 	// workers: some issue a single call, some a sequence of calls on the same proxy
 	nw := rapid.IntRange(1, n).Draw(rt, "nworkers")
@@ -210,6 +217,20 @@ func run(c Case) *stat.Failure {
 	}
 	done := make(chan struct{})
 	go func() { wg.Wait(); close(done) }()
+	if c.KeepAliveMs > 0 {
+		go func() {
+			for {
+				select {
+				case <-done:
+					return
+				case <-time.After(time.Duration(c.KeepAliveMs) * time.Millisecond):
+				}
+				for _, p := range proxies {
+					p.VerifKeepAlive()
+				}
+			}
+		}()
+	}
 	select {
 	case <-done:
 	case <-time.After(60 * time.Second):
@@ -318,6 +339,9 @@ func TestC08(t *testing.T) {
 		}
 		if c.IDBase > math.MaxInt32-64 || (c.IDBase <= 2 && c.IDBase >= -64) {
 			cls = append(cls, "id-counter-near-wrap")
+		}
+		if c.KeepAliveMs > 0 {
+			cls = append(cls, "keep-alive-pings")
 		}
 		st.CaseJSON(c, nontrivial(c), cls...)
 		st.Class("calls", int64(len(c.Callers)))
